@@ -16,8 +16,12 @@ void fiber_mark_completed(fiber_t* the_fiber, void* result) {
   atomic_store_explicit(&the_fiber->result, result, memory_order_release);
 
   if (the_fiber->detach_state != FIBER_DETACH_DETACHED) {
-    const int old_state =
-        atomic_exchange(&the_fiber->detach_state, FIBER_DETACH_WAIT_FOR_JOINER);
+    // only NONE -> WAIT_FOR_JOINER: if a joiner is already waiting the state
+    // must stay WAIT_TO_JOIN, otherwise a second fiber_join() on this fiber
+    // finds "finished, waiting for a joiner" and succeeds (or hangs) as well
+    int old_state = FIBER_DETACH_NONE;
+    atomic_compare_exchange_strong(&the_fiber->detach_state, &old_state,
+                                   FIBER_DETACH_WAIT_FOR_JOINER);
     if (old_state == FIBER_DETACH_NONE) {
       // need to wait until another fiber joins this one
       fiber_manager_set_and_wait(fiber_manager_get(),
